@@ -899,6 +899,19 @@ fn run_file(file: &Path, tmp: &Path) -> Vec<ApiOutcome> {
             None => { all.push(ApiOutcome { api: todo[0].into(), class: "abort".into(), detail: format!("child produced nothing: {status}") }); todo.remove(0); }
         }
     }
+    // a hang is deterministic: a call that hit the limit is repeated once in a fresh child, alone; only a second
+    // timeout counts (the machine may be oversubscribed many times over)
+    let timed_out: Vec<String> = all.iter().filter(|o| o.class == "timeout").map(|o| o.api.split('.').next().unwrap_or("").to_string()).collect();
+    for g in timed_out {
+        let args = vec!["child".to_string(), file.display().to_string(), g.clone()];
+        let (lines, status) = spawn_child(&args, tmp, Duration::from_millis(API_WALL_LIMIT_MS * 14));
+        let (res, _) = parse_child(&lines, &status);
+        if !res.is_empty() && !res.iter().any(|o| o.class == "timeout") {
+            all.retain(|o| o.api.split('.').next().unwrap_or("") != g);
+            all.extend(res);
+            all.push(ApiOutcome { api: format!("{g}.retry"), class: "ok".into(), detail: "a timeout of the first run was not reproduced".into() });
+        }
+    }
     let _ = std::fs::remove_dir_all(tmp);
     all
 }
@@ -971,6 +984,8 @@ fn canon(dec: &str, s: &str) -> String {
     match dec {
         "readtoc" | "memhdr" | "meshhdr" if w[0] == "ok" => "ok".into(),
         "prefix" | "frames" | "bounds" if w[0] == "ok" => "ok".into(),
+        // the reader is not handed out (seek / pre-read failed, or the stored checksum differs): one class
+        "blob" if s == "err io" || s == "err checksum" => "err no-reader".into(),
         "wal" if w[0] == "ok" && w.len() == 5 => format!("ok {} {}", w[2], w[3]), // model: records sequence pending write_head
         _ => s.to_string(),
     }
@@ -1550,7 +1565,7 @@ fn main() {
          Part B: seeds rich/small/empty/pending1/pending2 built through the API; mutations = bit flips in named fields, boundary values in length/offset \
          fields (header, WAL records, footer, track headers, TOC prefix), hash-consistent TOC edits, truncation at every field boundary (+-1), splices, \
          blanked fields, random / 0xFF / zero files; every file: open+reads, open_read_only+reads, verify(deep), doctor_plan, doctor in child processes \
-         (20 s CPU / 240 s wall per call) + header/read_toc/WAL/track decoders in-process vs model. non-trivial file = something beyond the header check ran; \
+         (20 s CPU / 240 s wall per call; a timeout must reproduce in a second, solitary run) + header/read_toc/WAL/track decoders in-process vs model. non-trivial file = something beyond the header check ran; \
          distinct = blake3(case)+outcome vector");
     let known: Vec<String> = args.extra.get("known").map(|k| k.split(',').filter(|x| !x.is_empty() && *x != "-").map(|x| x.to_string()).collect()).unwrap_or_default();
     let dir = tempfile::tempdir().expect("tempdir");
